@@ -1,6 +1,6 @@
 //go:build verif
 
-package hpke
+package hpke_test
 
 // C07 unit derive: DeriveKeyPair (RFC 9180 section 7.1.3) over a larger seed alphabet than
 // the matrix uses, for every KEM, including a seed that drives the P-256 rejection loop
@@ -9,6 +9,7 @@ package hpke
 import (
 	"bytes"
 	"fmt"
+	. "github.com/cloudflare/circl/hpke"
 	"testing"
 
 	"github.com/cloudflare/circl/internal/verifmc"
